@@ -26,6 +26,26 @@ pub fn property() -> Property {
                 replay: |v| replay_case::<PosCase, _>(v, check_movesets),
             },
             Part {
+                name: "along_games",
+                quick: 3_000,
+                thorough: 150_000,
+                single_shard: false, supplementary: false,
+                run: |cfg| {
+                    run_part(
+                        cfg,
+                        gen::raw_playout(150),
+                        |r| {
+                            // the legal-move generator unmakes: keep every position's clock inside unmake's domain
+                            let mut start = gen::seed_position(r, ClockDomain::Unmake);
+                            start.half = start.half.min(4095 - r.choices.len() as u64);
+                            gen::play_from(start, &r.choices).to_game()
+                        },
+                        check_along_game,
+                    )
+                },
+                replay: |v| replay_case::<gen::Game, _>(v, check_along_game),
+            },
+            Part {
                 name: "perft",
                 quick: 600,
                 thorough: 40_000,
@@ -167,5 +187,47 @@ pub fn check_perft(case: &PosCase, ctx: &mut Ctx) -> Result<(), String> {
         ctx.nontrivial(p.fen4());
     }
     ctx.sample(|| serde_json::json!({"fen": fen, "depth": max_depth, "perft1": n1, "perft2": n2}));
+    Ok(())
+}
+
+/// Histories: the position is reached by make() on ONE engine board (never re-loaded from text), so
+/// state that only a move sequence can produce (rights, e.p., bitboards after castling / captures) is what
+/// the generators see.
+pub fn check_along_game(case: &gen::Game, ctx: &mut Ctx) -> Result<(), String> {
+    let g = case.to_gamep()?;
+    let mut b = eng::board_from_pos(&g.start);
+    for (i, p) in g.positions.iter().enumerate() {
+        let want = eng::model_legal_uci(p);
+        let got = eng::legal_uci(&mut b);
+        let d = dups(&got);
+        if !d.is_empty() {
+            return Err(format!("after {:?} from {}: generate_legal_moves lists {d:?} more than once", &case.moves[..i], case.start));
+        }
+        diff("generate_legal_moves", &format!("{} (reached by {:?} from {})", p.fen(), &case.moves[..i], case.start), &got, &want)?;
+        let mut filtered = Vec::new();
+        for mv in b.generate_pseudo_legal_moves() {
+            b.make(mv);
+            if b.is_valid() {
+                filtered.push(mv.to_uci_string());
+            }
+            b.unmake(mv);
+        }
+        diff("pseudo-legal + make/is_valid/unmake", &format!("{} (reached by {:?} from {})", p.fen(), &case.moves[..i], case.start), &filtered, &want)?;
+        ctx.evals(1);
+        if i > 0 {
+            let cl = gen::classify(p);
+            if cl.iter().any(|c| matches!(*c, "in_check" | "double_check" | "ep_capture_legal" | "ep_capture_illegal_by_pin_or_check" | "castling_available" | "promotion_available")) {
+                ctx.nontrivial((p.fen4(), "history"));
+            }
+            for c in cl {
+                ctx.class(c);
+            }
+        }
+        if i < g.moves.len() {
+            let mv = eng::find_pseudo(&b, g.moves[i]).ok_or_else(|| format!("legal move {} not offered in {}", g.moves[i], p.fen()))?;
+            b.make(mv);
+        }
+    }
+    ctx.sample(|| serde_json::json!({"start": case.start, "plies": case.moves.len()}));
     Ok(())
 }
